@@ -831,3 +831,11 @@ impl<const MAX: usize, O: Adjacent> TryFrom<Contiguous<MAX, Index<O>>> for Index
         }
     }
 }
+
+// verification hook (add-only): harnesses live outside the repository and
+// are compiled only by the Kani compiler, which is what sets `cfg(kani)`
+#[cfg(kani)]
+#[allow(dead_code, unused_imports, unused_variables, missing_docs)]
+mod verif_kani {
+    include!(concat!(env!("FLAC_CODEC_VERIF_KANI"), "/k_cuesheet.rs"));
+}
